@@ -7,6 +7,7 @@ import (
 	"go/token"
 	"go/types"
 	"regexp/syntax"
+	"sort"
 
 	"golang.org/x/tools/go/ssa"
 )
@@ -713,4 +714,351 @@ func ruleKWIRETYPE(p *Program, r *Reporter) {
 func isEmptyInterface(t types.Type) bool {
 	i, ok := t.Underlying().(*types.Interface)
 	return ok && i.NumMethods() == 0
+}
+
+// ---------------------------------------------------------------------------
+// L-RPC — no lock that a notification handler needs is held across a blocking
+// RPC. The rpc2 read loop runs the registered handlers inline (blocking mode)
+// and is also what delivers RPC replies; a goroutine that waits for a reply
+// while holding lock m, with a handler that acquires m exclusively (or m held
+// exclusively and a handler acquiring it at all), deadlocks the connection as
+// soon as such a notification arrives before the reply.
+
+func ruleLRPC(p *Program, r *Reporter) {
+	const id = "L-RPC"
+	la := getLockAnalysis(p)
+	// 1. locks acquired synchronously by the notification handlers
+	type acq struct {
+		mode byte
+		pos  token.Pos
+		fn   *ssa.Function
+		via  string
+	}
+	handlerLocks := map[*types.Var][]acq{}
+	regs := rpcRegistrations(p, "client", "Client")
+	nh := 0
+	for _, reg := range regs {
+		if reg.target == nil {
+			continue
+		}
+		root := p.SSAFunc(reg.target)
+		if root == nil {
+			continue
+		}
+		nh++
+		seen := map[*ssa.Function]bool{root: true}
+		work := []*ssa.Function{root}
+		for len(work) > 0 {
+			g := work[0]
+			work = work[1:]
+			for _, b := range g.Blocks {
+				for _, ins := range b.Instrs {
+					var cc *ssa.CallCommon
+					switch x := ins.(type) {
+					case *ssa.Call:
+						cc = x.Common()
+					case *ssa.Defer:
+						cc = x.Common()
+					default:
+						continue // goroutines started by a handler do not block the read loop
+					}
+					if op, isLock, cls := lockOpOf(cc); isLock {
+						if cls && op.acquire {
+							handlerLocks[op.key.field] = append(handlerLocks[op.key.field], acq{op.key.mode, ins.Pos(), g, reg.name})
+						}
+						continue
+					}
+					var callees []*ssa.Function
+					if ci, ok := ins.(ssa.CallInstruction); ok {
+						callees = la.calleesOf(ci)
+					}
+					for _, h := range callees {
+						if h != nil && !seen[h] && len(h.Blocks) > 0 && pkgOf(h) == "client" {
+							seen[h] = true
+							work = append(work, h)
+						}
+					}
+				}
+			}
+		}
+	}
+	if nh < 3 {
+		r.Anchor(id, fmt.Sprintf("client notification handlers: %d resolved, expected >= 3", nh))
+		return
+	}
+	// 2. blocking RPC sites and the locks that may be held there, callers included
+	heldAtSite := func(fn *ssa.Function, at ssa.Instruction, visiting map[*ssa.Function]bool, depth int) []heldLock {
+		return la.heldWithCallers(fn, at, visiting, depth)
+	}
+	n := 0
+	for _, fn := range p.srcFuncs {
+		if pkgOf(fn) != "client" {
+			continue
+		}
+		for _, b := range fn.Blocks {
+			for _, ins := range b.Instrs {
+				c, ok := ins.(*ssa.Call)
+				if !ok {
+					continue
+				}
+				sc := c.Call.StaticCallee()
+				if sc == nil || sc.Pkg == nil || sc.Pkg.Pkg.Path() != "github.com/cenkalti/rpc2" || (sc.Name() != "Call" && sc.Name() != "CallWithContext") {
+					continue
+				}
+				n++
+				nbad := 0
+				seenK := map[string]bool{}
+				for _, h := range heldAtSite(fn, c, map[*ssa.Function]bool{}, 0) {
+					for _, a := range handlerLocks[h.k.field] {
+						if !(h.k.mode == 'W' || a.mode == 'W') {
+							continue
+						}
+						construct := fmt.Sprintf("%s holding %s needed by handler %s", sc.Name(), h.k, a.via)
+						if seenK[construct] {
+							continue
+						}
+						seenK[construct] = true
+						nbad++
+						r.Ob(id, funcName(fn), construct, c.Pos(), false, true,
+							fmt.Sprintf("%s (%s) is held while waiting for the reply, and the %q notification handler acquires it (%s at %s): a notification that arrives before the reply blocks the read loop, which then never delivers the reply", h.k, h.how, a.via, string(a.mode), p.Pos(a.pos)))
+					}
+				}
+				if nbad == 0 {
+					r.Ob(id, funcName(fn), "blocking "+sc.Name(), c.Pos(), true, true, "no lock held across this blocking RPC is needed exclusively by a notification handler")
+				}
+			}
+		}
+	}
+	if n < 3 {
+		r.Anchor(id, fmt.Sprintf("package client: %d blocking RPC calls, expected >= 3", n))
+	}
+}
+
+type heldLock struct {
+	k   lockKey
+	how string
+}
+
+// heldWithCallers: the locks that may be held before instruction `at` of fn,
+// including those held by any static caller (closures: where they are invoked).
+func (la *lockAnalysis) heldWithCallers(fn *ssa.Function, at ssa.Instruction, visiting map[*ssa.Function]bool, depth int) []heldLock {
+	var out []heldLock
+	f := la.facts[fn]
+	if f != nil {
+		if st, ok := f.before[at]; ok {
+			for k := range st {
+				if st.mayHeld(k) {
+					out = append(out, heldLock{k, "taken in " + funcName(fn)})
+				}
+			}
+		}
+	}
+	if depth > 6 || visiting[fn] {
+		return out
+	}
+	visiting[fn] = true
+	defer delete(visiting, fn)
+	var sites []callSite
+	if fn.Parent() != nil {
+		sites, _ = la.closureSites(fn)
+	} else {
+		sites = getCallIndex(la.p).sites[fn]
+	}
+	for _, s := range sites {
+		if _, isGo := s.instr.(*ssa.Go); isGo {
+			continue
+		}
+		for _, h := range la.heldWithCallers(s.caller, s.instr, visiting, depth+1) {
+			// a caller's lock that this function released before the site is not held
+			if f != nil {
+				if st, ok := f.before[at]; ok && st.mayReleased(h.k) && !st.mayHeld(h.k) {
+					continue
+				}
+			}
+			out = append(out, heldLock{h.k, h.how + " -> " + funcName(fn)})
+		}
+	}
+	sort.Slice(out, func(i, j int) bool { return out[i].k.String()+out[i].how < out[j].k.String()+out[j].how })
+	return out
+}
+
+// syncAcquisitions: lock acquisitions executed synchronously by root (its
+// callees in the same package included; goroutines it starts excluded).
+type lockAcq struct {
+	key lockKey
+	pos token.Pos
+	fn  *ssa.Function
+}
+
+func (la *lockAnalysis) syncAcquisitions(root *ssa.Function) []lockAcq {
+	var out []lockAcq
+	seen := map[*ssa.Function]bool{root: true}
+	work := []*ssa.Function{root}
+	for len(work) > 0 {
+		g := work[0]
+		work = work[1:]
+		for _, b := range g.Blocks {
+			for _, ins := range b.Instrs {
+				var cc *ssa.CallCommon
+				switch x := ins.(type) {
+				case *ssa.Call:
+					cc = x.Common()
+				case *ssa.Defer:
+					cc = x.Common()
+				default:
+					continue
+				}
+				if op, isLock, cls := lockOpOf(cc); isLock {
+					if cls && op.acquire {
+						out = append(out, lockAcq{op.key, ins.Pos(), g})
+					}
+					continue
+				}
+				for _, h := range la.calleesOf(ins.(ssa.CallInstruction)) {
+					if h != nil && !seen[h] && len(h.Blocks) > 0 && pkgOf(h) == pkgOf(root) {
+						seen[h] = true
+						work = append(work, h)
+					}
+				}
+			}
+		}
+	}
+	return out
+}
+
+// ---------------------------------------------------------------------------
+// L-CHAN — no unconditional send on a channel while holding a lock that the
+// channel's only receivers may need exclusively: the receiver parks in Lock(),
+// nobody receives, and the sender never releases the lock.
+
+func ruleLCHAN(p *Program, r *Reporter) {
+	const id = "L-CHAN"
+	la := getLockAnalysis(p)
+	chanField := func(v ssa.Value) *types.Var {
+		if ld, ok := v.(*ssa.UnOp); ok && ld.Op == token.MUL {
+			if fa, ok := ld.X.(*ssa.FieldAddr); ok {
+				return fieldOfAddr(fa)
+			}
+		}
+		return nil
+	}
+	// receivers per channel field
+	recv := map[*types.Var][]*ssa.Function{}
+	addRecv := func(f *types.Var, fn *ssa.Function) {
+		top := fn
+		for top.Parent() != nil {
+			top = top.Parent()
+		}
+		for _, g := range recv[f] {
+			if g == top {
+				return
+			}
+		}
+		recv[f] = append(recv[f], top)
+	}
+	for _, fn := range p.srcFuncs {
+		if pkgOf(fn) != "client" {
+			continue
+		}
+		for _, b := range fn.Blocks {
+			for _, ins := range b.Instrs {
+				switch x := ins.(type) {
+				case *ssa.UnOp:
+					if x.Op == token.ARROW {
+						if f := chanField(x.X); f != nil {
+							addRecv(f, fn)
+						}
+					}
+				case *ssa.Select:
+					for _, st := range x.States {
+						if st.Dir == types.RecvOnly {
+							if f := chanField(st.Chan); f != nil {
+								addRecv(f, fn)
+							}
+						}
+					}
+				}
+			}
+		}
+	}
+	n := 0
+	for _, fn := range p.srcFuncs {
+		if pkgOf(fn) != "client" {
+			continue
+		}
+		for _, b := range fn.Blocks {
+			for _, ins := range b.Instrs {
+				snd, ok := ins.(*ssa.Send)
+				if !ok {
+					continue
+				}
+				f := chanField(snd.Chan)
+				if f == nil {
+					continue
+				}
+				n++
+				// the send may be guarded by boolean parameters: callers that pass the
+				// constant which disables it do not reach it
+				required := map[int]bool{}
+				for _, fct := range factsAt(b) {
+					c, t := normFact(fct)
+					if prm, ok := c.(*ssa.Parameter); ok {
+						for i, q := range fn.Params {
+							if q == prm {
+								required[i] = t
+							}
+						}
+					}
+				}
+				var held []heldLock
+				if f0 := la.facts[fn]; f0 != nil {
+					if st, ok := f0.before[snd]; ok {
+						for k := range st {
+							if st.mayHeld(k) {
+								held = append(held, heldLock{k, "taken in " + funcName(fn)})
+							}
+						}
+					}
+				}
+				for _, s := range getCallIndex(p).sites[fn] {
+					if _, isGo := s.instr.(*ssa.Go); isGo {
+						continue
+					}
+					disabled := false
+					if ci, ok := s.instr.(ssa.CallInstruction); ok {
+						args := ci.Common().Args
+						for i, want := range required {
+							if i < len(args) {
+								if c, ok := args[i].(*ssa.Const); ok && c.Value != nil && c.Value.Kind() == constant.Bool && constant.BoolVal(c.Value) != want {
+									disabled = true
+								}
+							}
+						}
+					}
+					if disabled {
+						continue
+					}
+					for _, h := range la.heldWithCallers(s.caller, s.instr, map[*ssa.Function]bool{fn: true}, 1) {
+						held = append(held, heldLock{h.k, h.how + " -> " + funcName(fn)})
+					}
+				}
+				bad := ""
+				for _, g := range recv[f] {
+					for _, a := range la.syncAcquisitions(g) {
+						for _, h := range held {
+							if h.k.field == a.key.field && (h.k.mode == 'W' || a.key.mode == 'W') {
+								bad = fmt.Sprintf("unconditional send on %s while holding %s (%s); its receiver %s may block acquiring %s at %s: then nobody receives and the lock is never released",
+									lockClassName(f), h.k, h.how, funcName(g), a.key, p.Pos(a.pos))
+							}
+						}
+					}
+				}
+				r.Ob(id, funcName(fn), "send on "+lockClassName(f), snd.Pos(), bad == "", true,
+					ifs(bad == "", fmt.Sprintf("no lock held at this send is needed exclusively by the %d receiver(s) of the channel", len(recv[f])), bad))
+			}
+		}
+	}
+	if n == 0 {
+		r.Info("L-CHAN: no unconditional send on a struct-field channel in package client")
+	}
 }
